@@ -88,6 +88,22 @@ func (fx *FnCtx) resolveAssign(as *AssignSet, e Expr, env map[string]SVal, st *S
 			key, _ := fx.tm.heapKey(t)
 			as.byKey[key] = append(as.byKey[key], assignLoc{kind: "since", ref: x0.v.t, field: -1, typ: t})
 			return
+		case "objcells":
+			// objcells(p, "T"): every cell of type T inside the object p points to (storage owned by p: e.g. the
+			// record buffer of an encoding/csv.Reader)
+			x0 := fx.evalIn(x.Args[0], env, st, st, nil)
+			tn, ok := x.Args[1].(*EStr)
+			if !ok {
+				unsupported("assigns objcells(p, \"T\")")
+			}
+			ev := &Evaluator{fx: fx, pkg: fx.pkg, bound: map[string]SVal{}, env: map[string]SVal{}}
+			t, _ := ev.resolveType(tn.V)
+			if t == nil {
+				unsupported("assigns objcells: unknown type %s", tn.V)
+			}
+			key, _ := fx.tm.heapKey(t)
+			as.byKey[key] = append(as.byKey[key], assignLoc{kind: "objcells", ref: x0.v.t, field: -1, typ: t})
+			return
 		case "entries":
 			m := fx.evalIn(x.Args[0], env, st, st, nil)
 			mi := fx.tm.mapInfo(m.typ.Underlying().(*types.Map))
@@ -168,6 +184,8 @@ func (as *AssignSet) member(key string, r Term, fi int) Term {
 			ds = append(ds, fmt.Sprintf("(and (= (obj %s) (sobj %s)) (<= (soff %s) (idx %s)) (< (idx %s) (+ (soff %s) (scap %s))))", r, l.slice, l.slice, r, r, l.slice, l.slice))
 		case "since":
 			ds = append(ds, fmt.Sprintf("(> (obj %s) (obj %s))", r, l.ref))
+		case "objcells":
+			ds = append(ds, fmt.Sprintf("(= (obj %s) (obj %s))", r, l.ref))
 		case "ptrelems":
 			ds = append(ds, fmt.Sprintf("(exists ((ek Int)) (! (and (<= 0 ek) (< ek (slen %s)) (= %s (select %s (elemref %s ek)))) :pattern ((elemref %s ek))))", l.slice, r, l.ref, l.slice, l.slice))
 		case "mapvals":
@@ -289,6 +307,12 @@ func (fx *FnCtx) havocWithFrame(st, pre *State, m *Modset, as *AssignSet) {
 			}
 		}
 	}
+	// ghost state is not covered by assigns clauses: what the callee may touch is havoced
+	for k := range st.ghost {
+		if m.top || m.ghost[k] {
+			st.ghost[k] = fx.s.freshConst("ghost_"+k, fx.ghostSort(k))
+		}
+	}
 	na := fx.s.freshConst("alloc", "Int")
 	fx.s.assume("true", "(>= "+na+" "+pre.alloc+")")
 	st.alloc = na
@@ -374,6 +398,8 @@ func (fx *FnCtx) checkCalleeFrame(fr *Frame, ins ssa.Instruction, st *State, cal
 			case "slice":
 				goal = fmt.Sprintf("(or (> (sobj %s) %s) (= (scap %s) 0) (forall ((r Ref)) (=> (and (= (obj r) (sobj %s)) (<= (soff %s) (idx r)) (< (idx r) (+ (soff %s) (scap %s)))) %s)))",
 					l.slice, fx.allocEntry, l.slice, l.slice, l.slice, l.slice, l.slice, fx.assignSet.member(key, "r", l.field))
+			case "objcells":
+				goal = fmt.Sprintf("(or (> (obj %s) %s) (forall ((r Ref)) (=> (= (obj r) (obj %s)) %s)))", l.ref, fx.allocEntry, l.ref, fx.assignSet.member(key, "r", l.field))
 			case "since":
 				goal = fmt.Sprintf("(or (>= (obj %s) %s) (forall ((r Ref)) (=> (> (obj r) (obj %s)) (or (> (obj r) %s) %s))))", l.ref, fx.allocEntry, l.ref, fx.allocEntry, fx.assignSet.member(key, "r", l.field))
 			case "ptrelems":
